@@ -111,6 +111,10 @@ def extra_checks(binp, rng, tier, ev):
     if tbin is None:
         return [{"kind": "broken-correspondence", "what": "TSan harness does not build against /repo: " + str(info.get("error", ""))[-1500:]}]
     thorough = tier == "thorough"
+    # VERIF_C19_PART=sched|tsan runs only one of the two concurrent ties (for looking at one of them; the check runs both)
+    part = os.environ.get("VERIF_C19_PART", "")
+    if part == "sched":
+        return sched_checks(thorough, ev)
     r = rng.fork("tsan")
     ops = []
     for k in range(6000 if thorough else 500):
@@ -141,7 +145,8 @@ def extra_checks(binp, rng, tier, ev):
     cov["violating_runs"] = sum(1 for l in lines if l is not None and not l.startswith("ok ") and l != "NOT-RUN")
     ev["coverage"]["tsan"] = cov
     ev["coverage"]["generator_op_mix"] = dict(GEN_STATS)
-    viol += sched_checks(thorough, ev)
+    if part != "tsan":
+        viol += sched_checks(thorough, ev)
     return viol
 
 
@@ -320,8 +325,23 @@ def sched_checks(thorough, ev):
         return [{"kind": "broken-correspondence", "what": "schedule harness does not build against /repo: " + str(info.get("error", ""))[-1500:]}]
     lines, dops, checks = plan(thorough, 40 if thorough else 8)
     dres = run_driver(sys.modules[__name__], dops, history=True)
+    # maximal contention on one subtree: a setter alternating two levels, an unlocked loader and a locked getter below it
+    n = 20000 if thorough else 4000
+    hammers = [f"hammer {n} {root} {loc} {v1} {v2} {below}"
+               for root, loc, v1, v2, below in (("3", "a", "1", "4", "b"), ("-", "-", "0", "5", "a.b"), ("2", "a.b", "-", "3", "-"),
+                                                ("5", "-", "1", "-", "a"), ("0", "a", "5", "2", "-"), ("3", "a", "4", "1", "b.a"))
+               for _ in range(4 if thorough else 2)]
+    hout, hdeaths = run_harness(sbin, hammers, history=False, parts=6)
     out, deaths = run_harness(sbin, lines, history=False, parts=8)
+    deaths = deaths + hdeaths
     viol = []
+    for line, got in zip(hammers, hout):
+        if got != "NOT-RUN" and not (got or "").startswith("ok hammer") and len(viol) < 2:
+            viol.append({"kind": "input", "batch": "sched-hammer", "batch_kind": "stateless", "ops": [line],
+                         "expected": ["ok hammer … (every level seen is the root level or one of the two levels being set)"],
+                         "observed": [str(got)],
+                         "what": f"a level that no order of the calls produces was observed (or ThreadSanitizer reported a race): {str(got)[:300]} "
+                                 f"-- rerun (schedule dependent): echo '{line}' | TSAN_OPTIONS=exitcode=96:halt_on_error=1 {sbin}"})
     bad = verdicts(lines, out, dres, checks)
     for line, got, allowed in bad:
         if got == "NOT-RUN":
@@ -339,6 +359,8 @@ def sched_checks(thorough, ev):
         "lines": len(lines), "forced_orders": forced, "released_scenarios": len(lines) - forced,
         "released_rounds": (len(lines) - forced) * (40 if thorough else 8),
         "released_with_several_joint_results": sum(1 for l, o in zip(lines, out) if l.split()[1] == "r" and o and o.startswith("ok ") and "#" in o),
+        "hammer_runs": len(hammers), "hammer_sets_per_run": n,
+        "hammer_observers_seeing_3_values": sum((o or "").count("3") for o in hout if (o or "").startswith("ok hammer")),
         "driver_lines": len(dops), "deaths": len(deaths), "disagreeing": len([b for b in bad if b[1] != "NOT-RUN"]),
         "seconds": round(time.time() - t0, 1), "harness": {k: info.get(k) for k in ("cached", "key", "seconds")}}
     return viol
@@ -348,7 +370,7 @@ def sched_checks(thorough, ev):
 NAMES = ["a", "b", "c"]          # the same three names at every depth
 CFGS = ["D", "N", "M"]
 TAGS = ["F", "G", "Hx"]
-OBSERVATIONS = ("get", "lvl", "objr", "objl", "objc", "log", "logm", "logp", "fmt", "sink", "cstr", "enum", "case",
+OBSERVATIONS = ("get", "lvl", "objr", "objl", "objc", "log", "logm", "logp", "loga", "fmt", "sink", "cstr", "enum", "case",
                 "lfs", "lts", "lout", "lin", "loc", "chain", "fn", "ts", "ls", "dstream", "dls", "params", "pnf")
 MAX_OPS = 60
 DEPTHS = [0, 1, 1, 2, 2, 2, 3, 3]   # depth of a freshly drawn location (the root wipes everything: keep it rarer)
@@ -769,7 +791,7 @@ def api_lines():
     out += ["lin $", "lin _$", "lin __~$", "lin _x_debug$"]
     # location algebra: every program of <= 3 steps
     firsts = ["e", "n:a", "n:b", "n:_"]
-    steps = ["d:a", "d:b", "d:_", "s:a", "s:b", "x"]
+    steps = ["d:a", "d:b", "d:_", "s:a", "s:b", "a:a", "m:b", "x"]
     progs = [[f] for f in firsts]
     for _ in range(3):
         out += ["loc " + ",".join(p) for p in progs]
@@ -823,13 +845,47 @@ def object_api_case(r):
             ops.append(f"fmt {i} t")
             ops.append(f"lvl {i}")
             k = r.below(6)
-            ops += [f"logm {i} {k} m", f"log {i} {k} m", f"logp {i} {k} p {'q' * r.below(11)}x", f"sink {i} {k} {rand_fmtx(r)} m"]
+            ops += [f"logm {i} {k} m", f"log {i} {k} m", f"logp {i} {k} p {'q' * r.below(11)}x", f"loga {i} {k} first second{r.below(10)}",
+                    f"sink {i} {k} {rand_fmtx(r)} m", f"sink {i} {r.below(6)} @ m"]
         ops.append(f"cstr {r.below(6)} {rand_fmtx(r)} m")
         ops.append(f"del {victim}")
         alive.remove(victim)
         if alive and r.chance(1, 2):
             ops.append(f"set {loc_str(nodes[r.choice(alive)])} {rand_level(r)}")
     ops.append("get " + loc_str(nodes[0]))
+    return ops
+
+
+def matrix_cases():
+    """emission: every (level of the location) x (level of the message) x (stream configuration) x (log | FCPPT_LOG_*), the
+    level given by the context's root level, by a set before the object exists and by a set after it exists;
+    text: every location of depth <= 3 over the names a and the empty name x object formatter x stream configuration x
+    constructor"""
+    ops = []
+    levels = ["-"] + [str(k) for k in range(6)]
+    for cfg in CFGS:
+        for lv in levels:
+            for how in range(3):
+                ops += ["reset"]
+                if how == 0:
+                    ops += [f"ctx {lv} {cfg}", "objr a F"]
+                elif how == 1:
+                    ops += [f"ctx 3 {cfg}", f"set a {lv}", "objl - a F"]
+                else:
+                    ops += [f"ctx 3 {cfg}", "objr a F", f"set - {lv}"]
+                ops.append("lvl 0")
+                for k in range(6):
+                    ops += [f"log 0 {k} m{k}", f"logm 0 {k} m{k}"]
+    for cfg in CFGS:
+        for loc in paths(["a", "_"], 2):
+            for name in ("a", "_"):
+                for f in ("-", "F"):
+                    ops += ["reset", f"ctx 0 {cfg}", f"objl {loc_str(loc)} {name} {f}", "log 0 5 m", "logm 0 0 m", "fmt 0 t"]
+                    if loc:
+                        # the same node through the other two constructors
+                        ops += [f"objl {loc_str(loc[:-1])} {loc[-1]} G", f"objc 1 {name} {f}", "log 2 4 m", "fmt 2 t"]
+                    else:
+                        ops += [f"objr {name} {f}", "log 1 4 m", "fmt 1 t"]
     return ops
 
 
@@ -860,6 +916,12 @@ def batches(rng, tier):
                      "<= 3 steps (ctor, /=, /, string(), begin/end); format::chain on all pairs of 10 formatters (same object on both sides "
                      "when equal), prefix / inserter / default_level / time_stamp; level_stream ctor, sink(), get(), formatter(), log; "
                      "default_stream, default_level_streams; parameters, parameters_no_function")
+
+    yield Batch("emit-and-text-matrix", matrix_cases(), kind="history", exhaustive=True,
+                note="emission: all 7 levels of the location (from the root level / a set before / a set after the object exists) x all 6 "
+                     "message levels x stream formatters D,N,M x object::log and FCPPT_LOG_*; text: every location of depth <= 3 over a and "
+                     "the empty name x object formatter none/tag x D,N,M, the node reached through each of the three constructors")
+    _account("emit-and-text-matrix", matrix_cases())
 
     r = rng.fork("object-api")
     ops = []
